@@ -5,6 +5,7 @@ package main
 // and one token iteration of parseArgs.
 
 import (
+	"go/types"
 	"fmt"
 	"strings"
 
@@ -35,10 +36,29 @@ func groupOf(e *Expr, glob string) (int64, bool) {
 	if g := call.Args[1].globalLoaded(); g == nil || g.Name() != glob {
 		return 0, false
 	}
-	if call.Args[2].Op != OpParam {
+	if !isLineOrTrimmed(call.Args[2]) {
 		return 0, false
 	}
 	return ad.Args[1].intConst()
+}
+
+// resultRoles: which result is the "found" flag (the boolean), which the
+// error, and which (if any) the Call handed back by value instead of being
+// filled through a pointer parameter.
+func resultRoles(fn *ssa.Function) (found, errIdx, callIdx int) {
+	found, errIdx, callIdx = -1, -1, -1
+	rs := fn.Signature.Results()
+	for i := 0; i < rs.Len(); i++ {
+		t := rs.At(i).Type()
+		if bt, ok := t.Underlying().(*types.Basic); ok && bt.Kind() == types.Bool && found < 0 {
+			found = i
+		} else if types.TypeString(t, nil) == "error" {
+			errIdx = i
+		} else if nt, ok := t.(*types.Named); ok && nt.Obj().Name() == "Call" {
+			callIdx = i
+		}
+	}
+	return
 }
 
 func parseFuncRule(c *Ctx, a *flAgg) {
@@ -49,13 +69,36 @@ func parseFuncRule(c *Ctx, a *flAgg) {
 	exprHome = fn.Pkg.Pkg
 	x := &SPE{Fn: fn, MaxVisits: 2}
 	x.Explore()
-	cN := fn.Params[0].Name()
+	fi, ei, ci := resultRoles(fn)
+	if fi < 0 || ei < 0 {
+		a.und("PARSE-func", "parseFunc", "no found/error results", fn.Pos())
+		return
+	}
+	cN := ""
+	if ci < 0 {
+		for _, p := range fn.Params {
+			if pt, ok := p.Type().(*types.Pointer); ok {
+				if nt, ok := pt.Elem().(*types.Named); ok && nt.Obj().Name() == "Call" {
+					cN = p.Name()
+				}
+			}
+		}
+	}
 	okAll, n := true, 0
 	why := ""
-	for _, p := range x.Paths {
-		if p.Term != "return" || len(p.Results) != 2 {
+	for _, p0 := range x.Paths {
+		if p0.Term != "return" || len(p0.Results) <= fi || len(p0.Results) <= ei {
 			continue
 		}
+		if ci >= 0 {
+			// the call is a local handed back by value
+			cN = strings.TrimPrefix(p0.Results[ci].String(), "*")
+			cN = strings.Trim(cN, "()&")
+		}
+		// the rule below is written for (found, err)
+		pc := *p0
+		pc.Results = []*Expr{p0.Results[fi], p0.Results[ei]}
+		p := &pc
 		found, isC := p.Results[0].boolConst()
 		if !isC {
 			okAll, why = false, "non-constant 'found' result"
@@ -66,7 +109,7 @@ func parseFuncRule(c *Ctx, a *flAgg) {
 				okAll, why = false, "an error is returned without 'found'"
 			}
 			for _, ev := range p.Events {
-				if ev.Kind == EvStore && strings.HasPrefix(ev.Addr.String(), "&"+cN+".") {
+				if ci < 0 && ev.Kind == EvStore && strings.HasPrefix(ev.Addr.String(), "&"+cN+".") {
 					okAll, why = false, "the call is modified although the line is not a function line"
 				}
 			}
